@@ -39,6 +39,7 @@ type schedEvent struct {
 	done   bool
 	label  string
 	panicV interface{}
+	cond   func() bool // the thread may only be resumed when cond() holds (blocking operations)
 }
 
 // Trace is one complete execution.
@@ -67,6 +68,26 @@ func (s *Sched) Yield(label string) {
 	<-s.resume[i]
 }
 
+// IsThread reports whether the calling goroutine is one of the scheduler's threads.
+func (s *Sched) IsThread() bool {
+	s.mu.Lock()
+	_, ok := s.byGoid[goid()]
+	s.mu.Unlock()
+	return ok
+}
+
+// YieldUntil parks the calling thread at a blocking operation: it is enabled only while cond() holds.
+func (s *Sched) YieldUntil(label string, cond func() bool) {
+	s.mu.Lock()
+	i, ok := s.byGoid[goid()]
+	s.mu.Unlock()
+	if !ok {
+		return
+	}
+	s.events <- schedEvent{thread: i, label: label, cond: cond}
+	<-s.resume[i]
+}
+
 // Run executes the thread bodies under the given choice prefix; after the prefix the default policy is
 // "keep running the current thread if it is enabled, else the lowest enabled id".
 func (s *Sched) Run(fns []func(), prefix []int) *Trace {
@@ -78,6 +99,7 @@ func (s *Sched) Run(fns []func(), prefix []int) *Trace {
 	s.Labels = make([]string, n)
 	s.mu.Unlock()
 	finished := make([]bool, n)
+	conds := make([]func() bool, n)
 	for i := range fns {
 		s.resume[i] = make(chan struct{})
 		i := i
@@ -99,15 +121,23 @@ func (s *Sched) Run(fns []func(), prefix []int) *Trace {
 	cur := -1
 	for step := 0; ; step++ {
 		var enabled []int
-		if cur >= 0 && !finished[cur] {
+		ready := func(i int) bool { return !finished[i] && (conds[i] == nil || conds[i]()) }
+		if cur >= 0 && ready(cur) {
 			enabled = append(enabled, cur)
 		}
+		unfinished := 0
 		for i := 0; i < n; i++ {
-			if !finished[i] && i != cur {
+			if !finished[i] {
+				unfinished++
+			}
+			if ready(i) && i != cur {
 				enabled = append(enabled, i)
 			}
 		}
 		if len(enabled) == 0 {
+			if unfinished > 0 {
+				t.Deadlock = true // every unfinished thread waits for something nobody can provide
+			}
 			break
 		}
 		choice := enabled[0]
@@ -141,6 +171,7 @@ func (s *Sched) Run(fns []func(), prefix []int) *Trace {
 				}
 			} else {
 				s.Labels[ev.thread] = ev.label
+				conds[ev.thread] = ev.cond
 			}
 		case <-time.After(60 * time.Second):
 			// not an oracle: a thread blocked outside the scheduler; reported as hung, exploration of this branch ends
@@ -207,6 +238,10 @@ func ExploreSchedules(r *Report, bound int, maxRuns int, mk func(s *Sched) (thre
 		desc := map[string]interface{}{"schedule": t.Choices, "ops": t.Ops}
 		if t.Hung {
 			r.Violate("HUNG", "a thread blocked outside the scheduler (deadlock or lost wake-up)", desc)
+			return
+		}
+		if t.Deadlock {
+			r.Violate("DEADLOCK", "no enabled thread although some have not finished", desc)
 			return
 		}
 		if t.Diverged {
